@@ -4,9 +4,9 @@ CONSTANTS
   Dev_h13 = FALSE
   Dev_t127 = FALSE
   Dev_mdict = FALSE
-  Dev_drop = TRUE
-  Dev_cryptv = TRUE
-  Dev_mdstr = TRUE
+  Dev_drop = FALSE
+  Dev_cryptv = FALSE
+  Dev_mdstr = FALSE
   Dev_osrep = FALSE
   Dev_dparr = FALSE
 POSTCONDITION Consumed
